@@ -973,6 +973,20 @@ class Canon(object):
         """statement-level rewrites that create structure (run before the children are visited)"""
         out = []
         for s in body:
+            # N32b  x = getattr(obj, '<name>', <default>)   ->   if hasattr(obj, '<name>'): x = obj.<name>  else: x = <default>
+            if isinstance(s, (ast.Assign, ast.Return)) and isinstance(s.value, ast.Call) and isinstance(s.value.func, ast.Name) and s.value.func.id == 'getattr' \
+                    and len(s.value.args) == 3 and not s.value.keywords and isinstance(s.value.args[1], ast.Constant) and isinstance(s.value.args[1].value, str) \
+                    and s.value.args[1].value.isidentifier() and not s.value.args[1].value.startswith('__') and _pure(s.value.args[0]) and _pure(s.value.args[2]):
+                k = s.value
+                a, b = copy_stmt(s), copy_stmt(s)
+                if isinstance(s, ast.Assign):
+                    b.targets = [copy.deepcopy(t) for t in s.targets]
+                a.value = ast.copy_location(ast.Attribute(value=k.args[0], attr=k.args[1].value, ctx=ast.Load()), k)
+                b.value = k.args[2]
+                test = ast.copy_location(ast.Call(func=ast.copy_location(ast.Name(id='hasattr', ctx=ast.Load()), k), args=[copy.deepcopy(k.args[0]), k.args[1]], keywords=[]), k)
+                out.extend(self.expand([ast.copy_location(ast.If(test=test, body=[a], orelse=[b]), s)]))
+                self.hit('N32')
+                continue
             # N17 conditional expression as the whole value of a statement -> if / else
             if isinstance(s, (ast.Assign, ast.AugAssign, ast.Return)) and isinstance(s.value, ast.IfExp):
                 a, b = copy_stmt(s), copy_stmt(s)
